@@ -194,6 +194,121 @@ func (c *Ctx) rulePushLoops() {
 		if n == 0 {
 			rep.bad("R-APPEND", sp.fn, "anchor", c.p.pos(fn.Pos()), "no header store found")
 		}
+		if sp.gate == "" {
+			c.rulePolicyCall(fn, fa)
+		}
+	}
+}
+
+// rulePolicyCall: in methodAppend the policy is consulted only while room
+// remains, exactly once per loop iteration, its rejection is recorded through
+// setErr with the policy's own error, and the batch stops there.
+func (c *Ctx) rulePolicyCall(fn *ssa.Function, fa *FnAnalysis) {
+	rep := c.rep
+	name := relName(fn)
+	var pcalls []*ssa.Call
+	for _, b := range fn.Blocks {
+		for _, in := range b.Instrs {
+			call, ok := in.(*ssa.Call)
+			if !ok || call.Call.IsInvoke() || c.p.callee(&call.Call) != nil {
+				continue
+			}
+			if _, isB := call.Call.Value.(*ssa.Builtin); isB {
+				continue
+			}
+			if call.Call.Value == fn.Params[1] {
+				pcalls = append(pcalls, call)
+			}
+		}
+	}
+	pos := c.p.pos(fn.Pos())
+	if len(pcalls) != 1 {
+		rep.bad("R-POLICY", name, "policy call", pos, fmt.Sprintf("expected exactly one call of the push policy per iteration, found %d call sites", len(pcalls)))
+		return
+	}
+	pc := pcalls[0]
+	ppos := c.p.instrPos(pc)
+	// (1) room remains
+	room := fa.reachable(pc) && fa.allHold(pc, func(s *State) bool {
+		for _, call := range c.findCalls(fn, "stack.isFull") {
+			if v, known := fa.knownTerm(s, aTR, fa.term(s, call)); known && !v {
+				if ep, ok := s.cep[call]; ok && ep == s.epoch {
+					return true
+				}
+			}
+		}
+		return false
+	})
+	if room {
+		rep.ok("R-POLICY", name, "consulted while room remains", ppos, "the policy call is dominated by isFull()==false with no write in between")
+	} else {
+		rep.bad("R-POLICY", name, "consulted while room remains", ppos, "the push policy is consulted although the stack may already be full")
+	}
+	// (2) the call sits in the argument loop, on the loop's induction element
+	inLoop := false
+	for h, blocks := range fa.loopOf {
+		_ = h
+		if blocks[pc.Block()] {
+			inLoop = true
+		}
+	}
+	if !inLoop {
+		rep.bad("R-POLICY", name, "once per value", ppos, "the policy call is not inside the per-value loop")
+	} else {
+		rep.ok("R-POLICY", name, "once per value", ppos, "single call site inside the per-value loop")
+	}
+	// (3) rejection: setErr(policy error) and leave the loop without appending
+	okRej := false
+	var why string
+	for _, call := range c.findCalls(fn, "(*stack).setErr") {
+		if !fa.reachable(call) {
+			continue
+		}
+		good := fa.allHold(call, func(s *State) bool {
+			v, known := fa.nonNil(s, pc)
+			return known && v && fa.term(s, call.Call.Args[1]) == fa.term(s, pc)
+		})
+		if !good {
+			why = "setErr is not called with the policy's own non-nil error"
+			continue
+		}
+		// from this block every path leaves the loop without reaching an append
+		leaves := true
+		seen := map[*ssa.BasicBlock]bool{}
+		var walk func(b *ssa.BasicBlock)
+		walk = func(b *ssa.BasicBlock) {
+			if seen[b] {
+				return
+			}
+			seen[b] = true
+			for _, in := range b.Instrs {
+				if st, ok := in.(*ssa.Store); ok && c.eff.classifyAddr(st.Addr) == "HDR" {
+					leaves = false
+				}
+				if c2, ok := in.(*ssa.Call); ok && c2 == pc && b != call.Block() {
+					leaves = false
+				}
+			}
+			for _, s := range b.Succs {
+				walk(s)
+			}
+		}
+		for _, s := range call.Block().Succs {
+			walk(s)
+		}
+		if leaves {
+			okRej = true
+		} else {
+			why = "after a rejection the loop continues (a later value may still be offered or appended)"
+		}
+	}
+	if okRej {
+		rep.ok("R-POLICY", name, "rejection stops the batch", pos, "the rejecting branch records the policy's error with setErr and cannot reach another policy call or append")
+	} else {
+		if why == "" {
+			why = "no setErr call on the rejecting branch"
+		}
+		rep.bad("R-POLICY", name, "rejection stops the batch", pos, why)
 	}
 }
 
